@@ -287,6 +287,7 @@ package httpserver
 //@ // body bytes. The methods that reach *ResponseRecorder through its embedded wrapper are exactly these (a WriteString or
 //@ // ReadFrom promoted from the wrapper would carry bytes past the counter):
 //@ type ResponseRecorder promotes Header, Hijack, Flush, CloseNotify, Push
+//@ type ResponseBuffer promotes Hijack, Flush, CloseNotify, Push
 //@ func (*ResponseRecorder).WriteHeader
 //@   requires r != nil && r.ResponseWriterWrapper != nil
 //@   modifies ResponseRecorder.status
